@@ -122,9 +122,8 @@ func Run(src string, o Options) *Result {
 	if o.Imports == nil {
 		il = &util.MemoryImportLocator{Files: map[string]string{}}
 	}
-	erp := interpreter.NewECALRuntimeProvider(name, il, logger)
+	erp := NewProvider(name, il, logger)
 	defer func() {
-		erp.Cron.Stop()
 		if !erp.Processor.Stopped() {
 			erp.Processor.Finish()
 		}
@@ -156,6 +155,16 @@ func Run(src string, o Options) *Result {
 	rec.mu.Unlock()
 	res.Log = logger.Slice()
 	return res
+}
+
+// NewProvider creates a runtime provider whose cron thread is stopped at
+// once from a detached goroutine: timeutil.Cron.Stop() (krotik/common) can
+// deadlock against the cron tick when the provider lives across a 1 s tick
+// boundary, so no verdict path may ever wait for it.
+func NewProvider(name string, il util.ECALImportLocator, logger util.Logger) *interpreter.ECALRuntimeProvider {
+	erp := interpreter.NewECALRuntimeProvider(name, il, logger)
+	go erp.Cron.Stop()
+	return erp
 }
 
 // ErrInfo extracts (type, detail, data, hasData) from an ECAL error.
